@@ -6,7 +6,7 @@ cd "$(dirname "$0")"
 import reuse, os, sys
 p = os.path.realpath(reuse.__file__)
 assert p.startswith("/repo/src/"), f"reuse is imported from {p}, not /repo/src"
-import hypothesis, click, jinja2, tomlkit, debian  # noqa
+import click, jinja2, tomlkit, debian  # noqa
 print("setup ok:", p)
 PY
 mkdir -p evidence replays
